@@ -16,18 +16,18 @@ import (
 const repoModule = "github.com/grafana/carbon-relay-ng"
 
 type Ctx struct {
-	prog    *ssa.Program
-	pkgs    []*ssa.Package
-	byName  map[string]*ssa.Package
-	specs   *Specs
-	mu      sync.Mutex
-	loops   map[*ssa.Function]map[*ssa.BasicBlock]*Loop
-	typeIDs map[string]int
-	typeOf  map[int]types.Type
-	impls   map[string][]types.Type
+	prog     *ssa.Program
+	pkgs     []*ssa.Package
+	byName   map[string]*ssa.Package
+	specs    *Specs
+	mu       sync.Mutex
+	loops    map[*ssa.Function]map[*ssa.BasicBlock]*Loop
+	typeIDs  map[string]int
+	typeOf   map[int]types.Type
+	impls    map[string][]types.Type
 	allTypes []types.Type
-	repoDir string
-	skips   map[*ssa.Function]map[ssa.Instruction]bool
+	repoDir  string
+	skips    map[*ssa.Function]map[ssa.Instruction]bool
 }
 
 type Loop struct {
